@@ -298,7 +298,12 @@ func (m *Model) Chown(p string, uid, gid int) MOut {
 	if n == nil {
 		return o
 	}
-	n.Uid, n.Gid = uid, gid
+	if uid != -1 { // chown(2): -1 leaves the id as it is
+		n.Uid = uid
+	}
+	if gid != -1 {
+		n.Gid = gid
+	}
 	return ok()
 }
 
